@@ -5,8 +5,11 @@ import (
 	"sort"
 	"strings"
 
+	"golang.org/x/tools/go/ssa"
+
 	"osmolint/internal/analyses"
 	"osmolint/internal/ir"
+	"osmolint/internal/load"
 	"osmolint/internal/rules"
 )
 
@@ -17,7 +20,7 @@ func init() {
 			"(X-gen) every field of every module GenesisState is consumed by InitGenesis and produced by ExportGenesis, and InitGenesis does not overwrite a field of the state it was given; (X-mem) every write to in-memory keeper state is wiring, a rebuild from the store, or a self-validating cache — anything else is consensus-relevant state outside the store.",
 		NotCovered:  []string{"bit-identical app hash (needs two executions)", "losslessness of exported values beyond field coverage", "nondeterminism inside dependencies (SDK, wasmvm)"},
 		Assumptions: []string{"scope by package class rather than reachability (conservative)", "telemetry calls do not influence state"},
-		MinObl:      120,
+		MinObl:      165,
 		Run:         runC19,
 	})
 }
@@ -45,6 +48,9 @@ var memAllowed = map[string]string{
 	"poolmanager.Keeper.setTakerFeeShareAgreementsMapCached":       "whole-cache rebuild from the store (BeginBlock warm-up after restart)",
 	"poolmanager.Keeper.setAllRegisteredAlloyedPoolsByDenomCached": "whole-cache rebuild from the store (BeginBlock warm-up after restart)",
 }
+
+// genLoopConditional: calls inside InitGenesis import loops that legitimately run only for some records.
+var genLoopConditional = map[string]string{}
 
 // genOverwriteAllowed / genMissingAllowed
 var genMissingAllowed = map[string]string{}
@@ -149,6 +155,72 @@ func runC19(c *rules.Ctx) {
 	c.CallArg("x/lockup/keeper.Keeper.writeDurationValuesToAccumTree", "sumtree.Tree.Increase", 0, "lockupkeeper.Keeper.accumulationStore(k,ctx,denom)", "rebuilt totals are written to the denom's accumulation store")
 	c.CallArg("x/lockup/keeper.Keeper.writeDurationValuesToAccumTree", "sumtree.Tree.Increase", 1, "lockupkeeper.accumulationKey(elem(has(range(durationValueMap))))", "…under the key of the duration")
 	c.CallArg("x/lockup/keeper.Keeper.writeDurationValuesToAccumTree", "sumtree.Tree.Increase", 2, "lookup(durationValueMap, elem(has(range(durationValueMap))))", "…with that duration's total")
+	// ---- X-gen-loop: inside InitGenesis, a loop over imported records imports every record: each call to an osmosis
+	// function in the loop body is executed on every iteration (no `continue` skips a record's import), unless listed
+	nLoopCalls := 0
+	for _, fn := range c.P.AllFuncs() {
+		if fn.Name() != "InitGenesis" || fn.Parent() != nil || !load.IsSubjectFile(c.P.File(fn.Pos())) || !strings.HasPrefix(c.P.File(fn.Pos()), "x/") {
+			continue
+		}
+		f := c.Wrap(fn)
+		name := ir.FuncName(fn)
+		for _, h := range fn.Blocks {
+			body, latch := rules.NaturalLoop(h)
+			if body == nil {
+				continue
+			}
+			for _, b := range fn.Blocks {
+				if !body[b] || b == h {
+					continue
+				}
+				// innermost loop of b must be this one
+				inner := true
+				for _, h2 := range fn.Blocks {
+					if h2 == h {
+						continue
+					}
+					if b2, _ := rules.NaturalLoop(h2); b2 != nil && b2[b] && len(b2) < len(body) {
+						inner = false
+					}
+				}
+				if !inner {
+					continue
+				}
+				for _, ins := range b.Instrs {
+					call, ok := ins.(ssa.CallInstruction)
+					if !ok {
+						continue
+					}
+					callee := call.Common().StaticCallee()
+					cn := f.CalleeName(call)
+					if callee != nil && (callee.Pkg == nil || !strings.HasPrefix(callee.Pkg.Pkg.Path(), load.ModPrefix)) {
+						continue
+					}
+					if callee == nil && !call.Common().IsInvoke() {
+						continue
+					}
+					if !f.CanSucceed(b) {
+						continue // error construction on a failing path
+					}
+					nLoopCalls++
+					every := true
+					for _, l := range latch {
+						if !b.Dominates(l) {
+							every = false
+						}
+					}
+					key := name + " > " + cn
+					why, listed := genLoopConditional[key]
+					desc := "InitGenesis imports every record of a list: the call runs on every iteration"
+					if listed {
+						desc += " — conditional by design: " + why
+					}
+					c.Record("X-gen-loop", name, fmt.Sprintf("%s@%s", cn, c.P.Rel(ins.Pos())), desc, every || listed, orStr(map[bool]string{true: "every iteration", false: "skipped on some iterations"}[every], ""), c.P.Rel(ins.Pos()))
+				}
+			}
+		}
+	}
+	c.R.Extra["genesis_loop_calls"] = nLoopCalls
 	c.R.Extra["keeper_memory_writes"] = len(writes)
 }
 
